@@ -35,7 +35,7 @@ Local Open Scope Z_scope.
    dictionary (the chunk resets the dictionary, so the preset is dropped like any other history). *)
 Theorem C08_lzma2_units_independent : forall (ds : Z) (preset : option (list Z)) (d : dstate) (k : chunk),
   chunk_independent k = true -> astep ds d k = astep ds (d_init ds preset) k.
-Proof. exact (fun ds preset => astep_indep ds (d_init ds preset)). Qed.
+Proof. exact astep_indep_init. Qed.
 Print Assumptions C08_lzma2_units_independent.
 
 (* hence, with no hypothesis left: decoding the units one by one, each from the initial state, and
@@ -44,7 +44,7 @@ Print Assumptions C08_lzma2_units_independent.
 Theorem C08_lzma2_unit_cut_sound : forall (ds : Z) (preset : option (list Z)) (ks : list chunk),
   decode_units dstate (astep ds) (d_init ds preset) (cut_chunks ks) =
   decode_chunks dstate (astep ds) (d_init ds preset) ks.
-Proof. exact (fun ds preset => unit_cut_sound dstate (astep ds) (d_init ds preset) (astep_indep ds (d_init ds preset))). Qed.
+Proof. exact lzma2_unit_cut_sound. Qed.
 Print Assumptions C08_lzma2_unit_cut_sound.
 
 (* The chunk decoder is what LZMA2Reader computes (model of C01/C16), for EVERY source byte string
@@ -144,9 +144,7 @@ Proof. cbv zeta. repeat split; vm_compute; reflexivity. Qed.
    a DEPENDENT stored chunk, an LZMA chunk with dictionary reset, end marker.  The single-threaded
    reader returns the 10 bytes; the coordinator cuts two units (the dependent chunk stays with the
    first); fresh readers return 8 and 2 bytes. *)
-Definition ex_done (r : outcome (list Z * Z * lzma2)) : option (list Z * Z * bool) :=
-  match r with Ok (d, st, s) => Some (d, st, m_end_reached s) | _ => None end.
-
+(* [ex_done r] = data, status and end flag of a reader result (Mt/Lzma2UnitsProofs.v) *)
 Example C08_lzma2_mt_reader_example :
   ex_done (l2_read_result 20 ex_stream 4096 None [3; 1]) = Some (ex_data, 0, true) /\
   cr_units (cut_lzma2 ex_stream) =
@@ -184,9 +182,7 @@ Proof. cbv zeta. repeat split; vm_compute; reflexivity. Qed.
 
 (* LZMA2WriterMT: two units, each C01's example written by its own writer; the hypotheses of the
    theorem hold, and evaluated: the concatenation decodes to both data *)
-Definition ex_body : list Z := removelast ex_stream.
-Definition ex_units : list (list Z * list l2ev * list Z) := [(ex_data, ex_evs, ex_body); (ex_data, ex_evs, ex_body)].
-
+(* ex_body = ex_stream without its end marker; ex_units = this unit twice (Mt/Lzma2UnitsProofs.v) *)
 Example C08_lzma2_mt_writer_hyps : Forall (mt_unit_written 3 0 2 4096) ex_units.
 Proof.
   assert (H : mt_unit_written 3 0 2 4096 (ex_data, ex_evs, ex_body)).
